@@ -141,7 +141,9 @@ pub fn check_union(c: &Case, st: &mut Stats) -> Result<(), Failure> {
             return Ok(());
         }
     };
-    let text = format!("{}{}{}", ta, c.joiner, tb);
+    // the joiner always contains `||` (a minimised or hand-written case may have lost it)
+    let joiner = if c.joiner.contains("||") && c.joiner.replace("||", "").trim().is_empty() { c.joiner.clone() } else { " || ".to_string() };
+    let text = format!("{}{}{}", ta, joiner, tb);
     let r = match parse(&text)? {
         Some(r) => r,
         None => return Err(Failure::new("union-does-not-parse", format!("{:?} and {:?} parse but {:?} does not", ta, tb, text))),
@@ -163,7 +165,7 @@ pub fn check_union(c: &Case, st: &mut Stats) -> Result<(), Failure> {
         }
     }
     // order of alternatives
-    let t2 = format!("{}{}{}", tb, c.joiner, ta);
+    let t2 = format!("{}{}{}", tb, joiner, ta);
     let r2 = parse(&t2)?;
     pointwise_equal("alternatives swapped", &text, &Some(r.clone()), &t2, &r2, &pv, st)?;
     let mut rev = RangeAst::of(c.a.alts.iter().chain(c.b.alts.iter()).rev().cloned().collect(), vec![]);
@@ -275,6 +277,9 @@ fn cfg_for(pool: Vec<u64>, conj: bool) -> GenCfg {
     // sides must parse on their own: keep them short (a side that is itself unsatisfiable is discarded)
     cfg.few_toks = true;
     cfg.max_alts = 2;
+    cfg.allow_misplaced_wild = true;
+    cfg.allow_lowerless_hyphen = !conj;
+    cfg.allow_empty_alt = !conj;
     if conj {
         cfg.max_alts = 1;
         cfg.allow_hyphen = false;
